@@ -8,6 +8,7 @@ open FunModel
 /-- children of a container term: nil entries stay as `skip` -/
 partial def evalTerm : Sexp → Except String (Option Err)
   | .atom "N" => pure none
+  | .atom "NS" => pure none   -- a nil *ers.Stack operand: ignored like nil
   | .list [.atom "L", id] => do pure (some (.leaf (← nat id)))
   | .list [.atom "T", ty, id] => do pure (some (.typed (← nat ty) (← nat id)))
   | .list [.atom "W", id, x] => do
@@ -56,6 +57,26 @@ def handle (s : Sexp) : String :=
       let isBits := String.join (idl.map (fun t => bit (isOpt r t)))
       let unw := joinSep "," (sortStrings ((unwindOpt r).map Err.label))
       s!"len={items.length} nil={bit r.isNone} is={isBits} unwind=[{unw}]"
+  -- a sequence of calls on one Collector: (add TERM) | (resolve) | (iter) | (len). Every observation
+  -- (Resolve, Iterator, Len) shows exactly the constituents added so far, whatever was observed before.
+  | .list (.atom "colseq" :: .list _ :: steps) =>
+    let rec go (adds : List (Option Err)) (steps : List Sexp) (acc : List String) : String :=
+      match steps with
+      | [] => ";".intercalate acc.reverse
+      | st :: rest =>
+        let view (adds : List (Option Err)) : String :=
+          let items := flatten (ErrList.ofList adds)
+          joinSep "," (sortStrings ((unwindOpt (collectorResolve items)).map Err.label))
+        match st with
+        | .list [.atom "add", t] =>
+          (match evalTerm t with
+           | .error e => s!"bad-op {e}"
+           | .ok e => go (adds ++ [e]) rest ("ok" :: acc))
+        | .list [.atom "resolve"] => go adds rest (s!"r[{view adds}]" :: acc)
+        | .list [.atom "iter"] => go adds rest (s!"i[{view adds}]" :: acc)
+        | .list [.atom "len"] => go adds rest (toString (flatten (ErrList.ofList adds)).length :: acc)
+        | _ => "bad-op"
+    go [] steps []
   | _ => "bad-op"
 
 end FunModel.DrvC12
